@@ -197,6 +197,7 @@ def finish(ctx, explanation, level_note=None):
             'not_decided': ctx.not_decided,
             'trusted_base': ctx.trusted,
             'known_findings_reported': nknown,
+            'checker_validation': getattr(ctx, 'selftest', None),
             'undecided': ctx.undecided,
             'info': ctx.infos,
             'checker_cmd': './check %s --tier %s' % (ctx.prop, ctx.tier),
